@@ -112,6 +112,11 @@ pub mod relating {
         fn only_x(&self, _ctx: ExecCtx, x: X) -> StdResult<Response> {
             Ok(Response::new())
         }
+        /// a struct message that uses the bounded parameter X but not Y: the relating bound `X: Pairs<Y>` must not be kept on it
+        #[sv::msg(migrate)]
+        fn migrate(&self, _ctx: MigrateCtx, x: X) -> StdResult<Response> {
+            Ok(Response::new())
+        }
         #[sv::msg(query)]
         fn both(&self, _ctx: QueryCtx, x: X, y: Y) -> StdResult<Plain> {
             Ok(Plain {})
@@ -120,6 +125,7 @@ pub mod relating {
 
     pub fn use_site() {
         use sylvia::cw_std::Empty;
+        let m: sv::MigrateMsg<Empty> = sv::MigrateMsg::new(Empty {});
         let e: sv::ExecMsg<Empty> = sv::ExecMsg::only_x(Empty {});
         let q: sv::QueryMsg<Empty, Empty> = sv::QueryMsg::both(Empty {}, Empty {});
         let _ = (e, q);
@@ -181,5 +187,53 @@ pub mod assoc {
         let q: sv::QueryMsg<Empty, Empty> = sv::QueryMsg::q(vec![]);
         let s: sv::SudoMsg<Empty> = sv::SudoMsg::s(None);
         let _ = (e, q, s);
+    }
+}
+
+/// explicit `resp=` that differs from the Ok type of a literally spelled Result / StdResult (the attribute wins)
+pub mod resp_differs {
+    use super::*;
+
+    #[sylvia::cw_schema::cw_serde]
+    pub struct PublicResp {}
+    #[sylvia::cw_schema::cw_serde]
+    pub struct InternalResp {}
+
+    pub mod info {
+        use super::*;
+        #[interface]
+        #[sv::custom(msg = sylvia::cw_std::Empty, query = sylvia::cw_std::Empty)]
+        pub trait Info {
+            type Error: From<StdError>;
+            #[sv::msg(query, resp = PublicResp)]
+            fn iface_info(&self, ctx: QueryCtx) -> Result<InternalResp, Self::Error>;
+            #[sv::msg(query)]
+            fn iface_plain(&self, ctx: QueryCtx) -> Result<InternalResp, Self::Error>;
+        }
+    }
+
+    pub struct Contract;
+
+    #[contract]
+    impl Contract {
+        pub fn new() -> Self {
+            Self
+        }
+        #[sv::msg(instantiate)]
+        fn instantiate(&self, _ctx: InstantiateCtx) -> StdResult<Response> {
+            Ok(Response::new())
+        }
+        #[sv::msg(query, resp = PublicResp)]
+        fn contract_info(&self, _ctx: QueryCtx) -> StdResult<InternalResp> {
+            Ok(InternalResp {})
+        }
+        #[sv::msg(query, resp = PublicResp)]
+        fn contract_info2(&self, _ctx: QueryCtx) -> Result<InternalResp, StdError> {
+            Ok(InternalResp {})
+        }
+        #[sv::msg(query)]
+        fn contract_plain(&self, _ctx: QueryCtx) -> StdResult<InternalResp> {
+            Ok(InternalResp {})
+        }
     }
 }
